@@ -45,13 +45,22 @@ def canon(s, elem_hook=None):
         return ("...",)
     if not isinstance(s, Schema):
         return ("value", atom(s))
-    items = []
-    for name in sorted(s.props):
-        val = s.props.get(name)
-        if _is_nil(val):
-            continue
-        items.append((name, _cprop(name, val, elem_hook)))
-    return (type(s).__name__, tuple(items))
+    if id(s) in _ACTIVE:
+        return ("cycle", type(s).__name__)      # a schema that (through aliasing) contains itself
+    _ACTIVE.add(id(s))
+    try:
+        items = []
+        for name in sorted(s.props):
+            val = s.props.get(name)
+            if _is_nil(val):
+                continue
+            items.append((name, _cprop(name, val, elem_hook)))
+        return (type(s).__name__, tuple(items))
+    finally:
+        _ACTIVE.discard(id(s))
+
+
+_ACTIVE = set()
 
 
 def _cprop(name, val, elem_hook=None):
